@@ -99,14 +99,14 @@ def make_mt(sh):
     return model.MT(3, toks, root)
 
 
-def check_tree(mtj):
+def check_tree(mtj, order=None):
     mt = model.MT.from_json(mtj)
-    case = {'mt': mtj}
+    case = {'mt': mtj, 'order': order}
     out = []
     exp_root, moves = ref_root_attach(mt)
     exp = model.MT(mt.sid, mt.toks, exp_root)
     try:
-        t = build(mt)
+        t = build(mt, child_order=order)
         r = transform.root_attach(t)
     except Exception as e:
         return [{'kind': 'exception', 'where': 'root_attach', 'case': case,
@@ -131,7 +131,7 @@ def check_tree(mtj):
 
 def check_case(case):
     with quiet():
-        return check_tree(case['mt'])[0]
+        return check_tree(case['mt'], case.get('order'))[0]
 
 
 def run_chunk(chunk):
@@ -139,13 +139,14 @@ def run_chunk(chunk):
     with quiet():
         for sh, k in sweep.iter_shapes(chunk):
             mt = make_mt(sh)
-            vs, moves = check_tree(mt.to_json())
-            res.evals += 1
-            if moves:
-                res.nontrivial += 1
-            res.outcome((model.shape_str(sh), moves, len(vs)))
-            for v in vs:
-                res.violation(v['kind'], v['where'], v['case'], v['detail'], v['what'])
+            for order in (None, 'rev'):
+                vs, moves = check_tree(mt.to_json(), order)
+                res.evals += 1
+                if moves:
+                    res.nontrivial += 1
+                res.outcome((model.shape_str(sh), order, moves, len(vs)))
+                for v in vs:
+                    res.violation(v['kind'], v['where'], v['case'], v['detail'], v['what'])
             if moves:
                 res.sample({'tree': model.mt_str(mt.root), 'reattached_root_children': moves,
                             'expected': model.mt_str(ref_root_attach(mt)[0])})
